@@ -812,6 +812,9 @@ pub fn enumerate_c19(file: &CorpusFile, thorough: bool) -> Vec<Variant> {
         }
         if li.is_header {
             push(Edit::BlockRemoved { line: i });
+            if header_of(l).is_some() {
+                push(Edit::BlockDuplicated { line: i });
+            }
         }
         for (occ, _) in quoted_spans(l).iter().enumerate() {
             push(Edit::RenameQuoted { line: i, occ });
